@@ -43,6 +43,10 @@ if kind == 'c11':
             cases.append((f"$.b[?@==$.a[{i}]]", {"a": arr, "b": [0, 1, 2, 3, None]}))
             cases.append((f"$[?@[{i}]]", [arr, [arr]]))
             cases.append((f"$[?@[0][{i}]!=1]", [[arr]]))
+            # an index that selects nothing, against an operand that is empty by another route / under the functions
+            cases.append((f"$[?@[{i}]==@.nope]", [arr, [7] * ln])); cases.append((f"$[?@[{i}]!=@.nope]", [arr]))
+            cases.append((f"$[?@[{i}]==@[{-i - 1}]]", [arr])); cases.append((f"$[?@[{i}]<=@[{2 * ln + 5}]]", [arr]))
+            cases.append((f"$[?length(@[{i}])==0]", [[['ab'] * ln][0], [[]] * ln])); cases.append((f"$[?count(@[{i}])==0]", [arr])); cases.append((f"$[?value(@[{i}])==null]", [arr, [None] * ln]))
     # values that a narrower integer type would wrap or truncate (8, 16, 31, 32, 52, 53, 63 bits), in every position
     TR = sorted({s * (2 ** k + d) for k in (8, 16, 31, 32, 33, 40, 48, 52) for d in (-1, 0, 1, 2) for s in (1, -1)})
     for ln in (0, 1, 3, 6):
@@ -108,6 +112,13 @@ elif kind == 'c04':
             cases.append((f"$.i[?@{op}$.w]", {"w": o, "i": [o, o1, o2, o3, {}]}))
             cases.append((f"$.i[?@{op}$.w]", {"w": a, "i": [a, a1, a2, a[:-1], []]}))
             cases.append((f"$.i[?@.x{op}@.y]", {"i": [{"x": o, "y": o1}, {"x": o, "y": o2}, {"x": [o], "y": [o1]}, {"x": a, "y": a1}, {"x": a, "y": a2}]}))
+    # doubles one unit in the last place apart (and the smallest subnormals): different numbers, however close
+    ADJ = [(0.1 + 0.2, 0.3), (1.0000000000000002, 1.0), (2.0 ** 60, 2.0 ** 60 + 256), (1e308, 1.0000000000000002e308), (5e-324, 0.0), (-5e-324, 0.0), (1e-300, 1.0000000000000002e-300),
+           (0.1, 0.10000000000000002), (123456.78900000002, 123456.789), (-2.5000000000000004, -2.5)]
+    for x, y in ADJ:
+        for op in OPS:
+            cases.append((f"$[?@[0]{op}@[1]]", [[x, y], [y, x], [x, x]])); cases.append((f"$[?@.x{op}$.y]", {"y": y, "i": {"x": x}, "j": {"x": y}}))
+            cases.append((f"$[?@[0]{op}@[1]]", [[[x], [y]], [{"k": x}, {"k": y}]]))
     # integers of the document beyond 2^53 (each exactly an i64): compared with each other they are numbers like any other
     BIGI = [2**53, 2**53 + 1, 2**53 + 2, 2**62, 2**62 + 1, 2**63 - 1, 2**63 - 2, -(2**53) - 1, -(2**53) - 2, -(2**63), -(2**63) + 1, 0, 1]
     for x in BIGI:
@@ -175,11 +186,13 @@ elif kind == 'c14':
         form = rnd.choice(["{n}{f}(@, $.list)", "{n}{f}(@,$.list)", "{n}{f}(@, $.missing)", "{n}{f}(@.k, $.list)", "{n}{f}(@[0], $.list)", "{n}{f}(1, $.list)", "{n}{f}('a', $.list)", "{n}{f}(null, $.list)", "{n}{f}(true, $.list)", "{n}{f}('1', $.list)", "{n}{f}(1.0, $.list)", "{n}{f}(@, $.elems[0])", "{n}{f}($.list, @)", "{n}{f}(@[0], @)", "{n}{f}(@, $.list) && {f}(@, $.list)", "{n}{f}(@)", "{n}{f}(@, $.list, $.list)"])
         emit("$.elems[?" + form.format(n=neg, f=fn) + "]", doc)
 elif kind == 'c10':
-    SUBJ = ['', 'a', 'ab', 'abc', 'b', 'xaby', 'a b', 'é', '𝄞', 'a𝄞', 'a\nb', '1', 'A', 'a\\b', '\\', '\\\\', 'a\\xb', '\\d', 'xb']
+    SUBJ = ['(', ')', 'f(x', 'a|b', '**', '.', '', 'a', 'ab', 'abc', 'b', 'xaby', 'a b', 'é', '𝄞', 'a𝄞', 'a\nb', '1', 'A', 'a\\b', '\\', '\\\\', 'a\\xb', '\\d', 'xb']
     ARGS = SUBJ + [0, 1, 1.5, None, True, [], [1], [1, 2], {}, {"a": 1}, {"a": 1, "b": 2}, ["ab"]]
     PATS = ['a', 'ab', 'a|b', 'a.b', '.', '.*', 'a*', '(a|b)+', '[a-c]+', '[^a]', '^a', 'a$', '^ab$', 'é', '𝄞', '', '(', 'a)', '+', 'a{2}', '\\\\.', 'A',
             # not regular expressions, although the anchoring wrapper `^(?:…)$` of match() would turn them into one
             'a)|(b', 'a)(b', ')|(', 'a)b(c', 'x)|(?:a',
+            # a parenthesis (or another metacharacter) as a plain member of a class
+            '[^)]+', '[(]', '[)]', 'f[(]x', '[^(]', '[()]+', 'a[|]b', '[*]+', '[.]',
             # an escaped backslash in a pattern that comes from the document (4 characters a \\ \\ b: matches the 3 characters a \\ b)
             'a\\\\b', '\\\\', '\\\\\\\\', 'a\\\\.b', '\\\\d']
     for _ in range(N):
@@ -189,6 +202,12 @@ elif kind == 'c10':
         elif r < 0.35: emit(f"$[?count({rnd.choice(['@.*','@[0]','@..*','@[5]','@','$[*]','@[0,0]','@[*,*]','@[0,-1,0]','@[0:2,1:]','@..[0,0]','$[0,0,0]','@[*,?@]'])}){rnd.choice(['==','<','>='])}{rnd.choice([0,1,2,3,'2.0','1e0','4','6'])}]", items)
         elif r < 0.5: emit(f"$[?value({rnd.choice(['@.*','@[0]','@..*','@[5]','@','@.a'])}){rnd.choice(['==','!='])}{rnd.choice(['1','null',chr(39)+'ab'+chr(39)])}]", items)
         elif r < 0.6: emit(f"$[?length(@.a)==length(@.b)]", [{"a": rnd.choice(ARGS), "b": rnd.choice(ARGS)} for _ in range(3)])
+        elif r < 0.68:
+            # the current node occurs only INSIDE a nested function call (a filter wrongly taken for constant is evaluated once)
+            form = rnd.choice(["$[?length(value(@.*))=={k}]", "$[?match(value(@.*),'{p}')]", "$[?count(@[?length(value(@.*))>0])>={k}]", "$[?in(length(@), $[0])]", "$[?length(value(@[0]))<{k}]",
+                               "$[?search(value(@..a),'{p}')]", "$[?value(@.*)==value($[0].*)]", "$[?!match(value(@.*),'{p}')]", "$[?count(@.*)==count($[0].*) && length(value(@.*))>0]"])
+            docs = [[rnd.choice(['a', 'ab', 'abc', 'xx', 1])] if rnd.random() < 0.6 else {"a": rnd.choice(['ab', 'b', 'xaby'])} for _ in range(rnd.choice([3, 4, 5]))]
+            emit(form.format(k=rnd.choice([0, 1, 2, 3]), p=rnd.choice(['a.*', 'ab', '.', 'a|b', 'x+'])), [[1, 2, 3]] + docs if 'in(' in form else docs)
         else:
             fn = rnd.choice(['match', 'search']); neg = rnd.choice(['', '', '!'])
             p = rnd.choice(PATS)
@@ -234,6 +253,7 @@ if kind == 'c13':
         r = rnd.random()
         if r < 0.25: return ('cmp', ('sq', rnd.choice(['@', '$']), [sqname() for _ in range(rnd.choice([0, 1, 2]))]), rnd.choice(['==', '!=', '<', '<=', '>', '>=']), ('num', rnd.choice([0, 0, 1, 2, -1])))
         if r < 0.31: return ('cmp', ('fnv', rnd.choice(['length(@)', 'count(@.*)', 'value(@[0])', 'length(@.a)', 'count(@..*)'])), rnd.choice(['==', '!=', '<', '<=', '>', '>=']), ('num', rnd.choice([0, 1, 2, 3])))
+        if r < 0.33 and d < 2: return ('cmp', ('fnq', rnd.choice(['count', 'count', 'value']), ('q', True, [(False, [('filter', [[abstract_atom(d + 1) for _ in range(rnd.choice([1, 2, 3, 3, 4]))] for _ in range(rnd.choice([1, 1, 2, 3]))])])])), rnd.choice(['==', '!=', '<', '>=']), ('num', rnd.choice([0, 1, 2])))
         if r < 0.35: return ('cmp', ('num', rnd.choice([0, 1, 2, 100])), rnd.choice(['==', '!=', '<', '>=']), ('num', rnd.choice([0, 1, 2, 100])))
         if r < 0.6: return ('test', rnd.random() < 0.3, abstract_query(d + 1, True))
         if r < 0.8 and d < 2: return ('paren', rnd.random() < 0.3, abstract_logical(d + 1))
@@ -257,6 +277,7 @@ if kind == 'c13':
     def r_operand(o):
         if o[0] == 'sq': return r_sq(o)
         if o[0] == 'fnv': return o[1]
+        if o[0] == 'fnq': return o[1] + ws() * 0 + '(' + ws() + r_query(o[2]) + ws() + ')'
         if o[0] == 'num': return num_spell(o[1])
         return rnd.choice(["'%s'", '"%s"']) % o[1]
     def r_atom(a):
